@@ -166,7 +166,6 @@ func runC07Case(id string, c *c07Case) {
 		cs.Oracle = "data race reported: " + raceSummary(stderr)
 		cs.Sig = "C07:race:" + raceSite(stderr)
 	}
-	cs.Obs = fmt.Sprintf("returned=%v closed=%v", o.Returned, o.Closed)
 	if len(c.Force) == 3 {
 		cs.Kind = "forced/" + cs.Kind
 		if o.Infeasible {
@@ -175,7 +174,58 @@ func runC07Case(id string, c *c07Case) {
 		}
 	}
 	cs.Trace = o.Trace
+	// model side (CloseRun.run_c07): the observed final outcome must be one of the outcomes of the
+	// model's quiescent states, and the record of yield points passed since the scenario's initial
+	// state must be a possible record of a run of the model
+	mdriver, mstate, tstate, second, user := c07ModelScenario(c)
+	if got && !killed && o.Panicked == "" {
+		leak := o.Goroutines1 - o.Goroutines0
+		if leak < 0 {
+			leak = 0
+		}
+		ret := o.Returned && (c.State != "second-close" || o.SecondReturn)
+		cs.Line = fmt.Sprintf("c07 %s %s %d %d %d", mdriver, mstate, c.OnClose, second, user)
+		cs.Obs = fmt.Sprintf("returned=%v closed=%v leak=%d", ret, o.Closed, leak)
+	} else if o.Panicked != "" || (!got && !killed) {
+		cs.Line = fmt.Sprintf("c07 %s %s %d %d %d", mdriver, mstate, c.OnClose, second, user)
+		cs.Obs = "panic=" + crashKind(o.Panicked+stderr)
+	}
 	emit(cs)
+	if got && !killed && len(o.Trace) > 0 && len(o.Trace) < 120 {
+		ts := &Case{ID: id + "/trace", Kind: "trace/" + c.Driver + "/" + c.State, HypOK: true, Replay: c, Nontrivial: true}
+		ts.Line = fmt.Sprintf("c07hooks %s %s %d %d %d %s", mdriver, tstate, c.OnClose, second, user, strings.Join(o.Trace, ","))
+		ts.Obs = "accept"
+		emit(ts)
+	}
+}
+
+// c07ModelScenario maps a harness case to the scenario of the protocol model (Close.v).  The
+// simulated transport's Read blocks while nothing is available, so an idle connection is the
+// model's state "reader parked in the transport read" (the child waits until the transport reports
+// a parked reader, and for the yield points that show an EOF / error has been handed on).  The
+// network driver's on-close hook runs channel operations during Close: outcomes are compared with
+// the model's most general state `any`, the record with `parked-any`.
+func c07ModelScenario(c *c07Case) (driver, state, tstate string, second, user int) {
+	driver = "cli"
+	if c.Driver == "netconf" {
+		driver = "netconf"
+	}
+	state = c.State
+	switch c.State {
+	case "idle", "after-op", "blocked":
+		state = "blocked"
+	case "second-close":
+		state = "blocked"
+		second = 1
+	}
+	tstate = state
+	if c.Driver == "network-hook" {
+		// outcomes: the most general verified scenario; record: the reader starts parked in the
+		// read and the connection may then do anything (the hook's own exchanges)
+		user = 1
+		state, tstate = "any", "parked-any"
+	}
+	return
 }
 
 func lastLines(s string, n int) string {
@@ -338,18 +388,76 @@ func c07Child() {
 			_, _ = d.GetPrompt()
 		}
 	}
-	time.Sleep(3 * time.Millisecond) // let the reader settle into its blocking read
+	// let the reader settle into its blocking read (observed on the transport, not assumed)
+	waitUntil := func(what func() bool) {
+		dl := time.Now().Add(500 * time.Millisecond)
+		for !what() && time.Now().Before(dl) {
+			time.Sleep(200 * time.Microsecond)
+		}
+	}
+	seenAfter := func(from int, labels ...string) func() bool {
+		// the labels occur in this order in the record after position `from`
+		return func() bool {
+			ctl.mu.Lock()
+			defer ctl.mu.Unlock()
+			i := 0
+			if from > len(ctl.trace) {
+				from = len(ctl.trace)
+			}
+			for _, l := range ctl.trace[from:] {
+				if i < len(labels) && l == labels[i] {
+					i++
+				}
+			}
+			return i == len(labels)
+		}
+	}
+	traceLen := func() int {
+		ctl.mu.Lock()
+		defer ctl.mu.Unlock()
+		return len(ctl.trace)
+	}
+	time.Sleep(time.Millisecond)
+	waitUntil(tr.Waiting)
+	// the record compared with the model starts when the connection is in the scenario's initial
+	// state: after the static states are armed, before a concurrent arrival is started
+	resetTrace := func() {
+		ctl.mu.Lock()
+		ctl.trace = nil
+		ctl.mu.Unlock()
+	}
 	switch c.State {
 	case "eof":
+		// the reader sees EOF and returns; under NETCONF Driver.read then parks on its hand-off
+		from := traceLen()
 		tr.Fail(sim.LossEOF)
-		time.Sleep(3 * time.Millisecond)
+		if c.Driver == "netconf" {
+			waitUntil(seenAfter(from, "read:after-read-error", "ncread:before-error-handoff"))
+		} else {
+			waitUntil(seenAfter(from, "read:after-read-error"))
+		}
+		time.Sleep(2 * time.Millisecond)
+		resetTrace()
 	case "ioerr":
+		// the reader parks on its hand-off; under NETCONF Driver.read takes the first error and
+		// parks on ITS hand-off, the reader comes round again and parks
+		from := traceLen()
 		tr.Fail(sim.LossErr)
-		time.Sleep(3 * time.Millisecond)
+		if c.Driver == "netconf" {
+			waitUntil(seenAfter(from, "read:before-error-handoff", "ncread:before-error-handoff", "read:before-error-handoff"))
+		} else {
+			waitUntil(seenAfter(from, "read:before-error-handoff"))
+		}
+		time.Sleep(2 * time.Millisecond)
+		resetTrace()
 	case "data-arriving":
+		resetTrace()
 		go func() { tr.Inject(sim.Atoms([]byte("unsolicited output\r\nrouter#"))) }()
 	case "error-arriving":
+		resetTrace()
 		go func() { tr.Fail(sim.LossErr) }()
+	default:
+		resetTrace()
 	}
 	if c.JitterUS > 0 {
 		time.Sleep(time.Duration(c.JitterUS) * time.Microsecond)
